@@ -4,7 +4,7 @@
     ([sat], [mined_at] arbitrary functions) and every RNG script. *)
 From V.Lib Require Import Base.
 From V.Gen Require Import C18Consts.
-From V.C18 Require Import Model Spec Corr Wf Store ProofsDead ProofsKernel ProofsLife ProofsDrive ProofsRebuild ProofsSeq ProofsStrand ProofsTerm ProofsTotal Bridge ProofsStore.
+From V.C18 Require Import Model Spec Corr Wf Store ProofsDead ProofsKernel ProofsLife ProofsDrive ProofsRebuild ProofsSeq ProofsStrand ProofsTerm ProofsTotal ProofsSampler ProofsStatus Bridge ProofsStore.
 From Coq Require Import Sorted.
 Local Open Scope Z_scope.
 
@@ -212,6 +212,39 @@ Theorem C18_dead_set_least : forall s tg (P : Z -> Prop),
   forall x, mem x (dead_set s tg) = true -> P x.
 Proof. exact dead_set_least. Qed.
 
+(** The status view ([transaction_statuses]) never reports an unmined row silently: the row is
+    ready (with an action), or names what it is blocked on, or is in flight; every reason it names
+    is true of the row (signature / schedule / anchor boundary / dependencies / re-evaluation /
+    expiry / unsatisfiable); and "ready" agrees with the kernel's queues on states with unique ids,
+    so a row reported ready to broadcast is exactly one the drive API may offer. *)
+Theorem C18_status_never_silent : forall s tg dead t, is_mined t = false ->
+  ts_ready (tx_status s tg dead t) = true \/ ts_blocked (tx_status s tg dead t) <> None \/ t_state t = Bcast.
+Proof. exact status_never_silent. Qed.
+Theorem C18_status_reason_truthful : forall s tg dead t b,
+  ts_blocked (tx_status s tg dead t) = Some b -> blocker_true s tg dead t b.
+Proof. exact status_reason_truthful. Qed.
+Theorem C18_status_ready_action : forall s tg dead t,
+  (ts_ready (tx_status s tg dead t) = true <-> ts_action (tx_status s tg dead t) <> None)
+  /\ (ts_ready (tx_status s tg dead t) = true -> ts_blocked (tx_status s tg dead t) = None).
+Proof. exact status_ready_action. Qed.
+Theorem C18_status_ready_broadcast_is_kernel : forall s tg t, NoDup (map t_id (m_txs s)) -> In t (m_txs s) ->
+  (ts_action (tx_status s tg (dead_set s tg) t) = Some ABroadcast <-> bcast_ok s tg (dead_set s tg) [] t = true).
+Proof. exact status_ready_broadcast_kernel. Qed.
+Theorem C18_status_ready_prove_is_kernel : forall s tg t, NoDup (map t_id (m_txs s)) -> In t (m_txs s) -> t_fail t = None ->
+  (ts_action (tx_status s tg (dead_set s tg) t) = Some AProve <-> prove_ok s tg (dead_set s tg) [] t = true).
+Proof. exact status_ready_prove_kernel. Qed.
+
+(** The anchor rejection sampler: the model's 64 draws are as good as any larger fuel for an RNG
+    script of at most 63 ages, past which every word is odd (the hypothesis of
+    C17_anchor_terminates_on_odd_word: one odd word suffices); the script is never rewound. *)
+Theorem C18_redraw_fuel_irrelevant : forall F ivl prior bh r, (64 <= F)%nat -> 1 <= ivl <= U32MAX ->
+  (need r <= 63)%nat ->
+  redraw_anchor_boundary_f F ivl prior bh r = redraw_anchor_boundary ivl prior bh r.
+Proof. exact redraw_fuel_irrelevant. Qed.
+Theorem C18_redraw_script_never_rewound : forall F ivl prior bh r,
+  (need (snd (redraw_anchor_boundary_f F ivl prior bh r)) <= need r)%nat.
+Proof. exact redraw_need. Qed.
+
 (** Persistence, on the row-level model of the normalised tables (Store.v): transactions held in
     strictly increasing id order read back equal; the order is needed (rows come back by id); and
     over any sequence of persisted states the account holds at most one non-terminal migration,
@@ -235,6 +268,7 @@ Proof. exact one_live_migration. Qed.
     implementation's observed outcome satisfies the property checker of Spec.v (everything
     [prop_case] checks except the SQLite verdicts, which are observations of the real database). *)
 Theorem C18_bridge : forall pre ev post out p,
+  wf_case (Case pre ev post out p) = true ->
   run_case (Case pre ev post out p) = true -> prop_event pre ev post out = true.
 Proof. exact bridge. Qed.
 
